@@ -665,6 +665,13 @@ class Parser:
                 if tok.txt == '{':
                     # {...} protects space and ','
                     seq = self.arg_buffer(buf, 0).all()
+                    if buf.cur() is tok:
+                        # closing } not found: arg_buffer() has pushed back
+                        # all tokens --> take { as normal token, otherwise
+                        # we would read it again and again
+                        val.append(tok)
+                        tok = buf.next()
+                        continue
                     if len(seq) == 1 and type(seq[0]) is defs.VoidToken:
                         # this was an empty {}
                         seq = []
